@@ -150,6 +150,8 @@ struct TrackedNX {
     void set(uint64_t v) { t.set(v); }
     void or_bits(uint64_t b) { t.or_bits(b); }
     uint64_t peek() const { return t.peek(); }
+    bool operator==(const TrackedNX& o) const { return t == o.t; }
+    bool operator!=(const TrackedNX& o) const { return !(t == o.t); }
 };
 // A payload with an initializer_list constructor (JSON-like / container-like types): `T{x}` and `T(x)` are different constructors for it.
 struct TrackedIL {
